@@ -59,7 +59,9 @@ Drop(f, ks)    == [x \in DOMAIN f \ ks |-> f[x]]
 
 ModelObj   == <<"mo", <<>>, <<>>, "">>
 NoObj      == <<"no", <<>>, <<>>, "">>
-DeadObj    == <<"dead", <<>>, <<>>, "">>     \* handle of a deleted object
+DeadObj    == <<"dead", <<>>, <<>>, "sp">>   \* handle of a deleted space
+DeadCe     == <<"dead", <<>>, <<>>, "ce">>   \* handle of a deleted cells
+IsDead(v)  == v[1] = "dead"
 IntObj(n)  == <<"int", n, <<>>, "">>
 SpObj(p, st) == <<"sp", p, st, "">>
 CeObj(p, st, c) == <<"ce", p, st, c>>
@@ -96,11 +98,12 @@ C3(D, s) == C3R(D, s, {})
 \* ancestors through the base relation (for acyclicity)
 RECURSIVE BaseClosure(_, _, _)
 BaseClosure(D, front, seen) ==
-    LET nxt == UNION {Range(D.bases[s]) : s \in front} \ seen IN
+    LET nxt == UNION {Range(D.bases[s]) : s \in front \cap DOMAIN D.bases} \ seen IN
     IF nxt = {} THEN seen ELSE BaseClosure(D, nxt, seen \cup nxt)
 AllBases(D, s) == BaseClosure(D, {s}, {})
 Acyclic(D)     == \A s \in D.sp : s \notin AllBases(D, s)
-WellFormed(D)  == Acyclic(D) /\ \A s \in D.sp : C3(D, s) # Fail
+WellFormed(D)  == /\ Acyclic(D)
+                  /\ \A s \in D.sp : Range(D.bases[s]) \subseteq D.sp /\ C3(D, s) # Fail
 
 -----------------------------------------------------------------------------
 (* Effective (defined + derived) members of a static space: C03's          *)
@@ -123,7 +126,7 @@ ObjAlive(D, v) ==
     CASE v[1] = "sp" -> (v[3] = <<>> => v[2] \in D.sp)
       [] v[1] = "ce" -> (v[3] = <<>> => (v[2] \in D.sp /\ v[4] \in ENames(D, v[2], "cells")))
       [] OTHER -> TRUE
-Normal(D, v) == IF ObjAlive(D, v) THEN v ELSE DeadObj
+Normal(D, v) == IF ObjAlive(D, v) THEN v ELSE IF v[1] = "ce" THEN DeadCe ELSE DeadObj
 \* after a structural edit, references to objects that no longer exist hold dead handles
 KillDangling(D) ==
     [D EXCEPT !.refs  = [s \in DOMAIN @ |-> [n \in DOMAIN @[s] |-> [@[s][n] EXCEPT !.v = Normal(D, @)]]],
@@ -243,8 +246,8 @@ Attr(D, obj, name) ==
          THEN IF <<name>> \in D.sp THEN SpObj(<<name>>, <<>>)
               ELSE IF name \in DOMAIN D.grefs THEN D.grefs[name].v
               ELSE NoObj
-    ELSE IF obj[1] = "dead" THEN DeadObj
-    ELSE NoObj
+    ELSE IF obj = DeadObj THEN DeadObj      \* attribute of a deleted space: DeletedObjectError
+    ELSE NoObj                              \* cells objects (dead or alive) have no such attribute
 
 RECURSIVE WalkFrom(_, _, _, _)
 WalkFrom(D, obj, path, i) ==
@@ -289,7 +292,7 @@ AllowNone(D, ctx, c) ==
 CallErr(D, ctx, key, op) ==
     LET tgt == Resolve(D, ctx, op[2]) IN
     IF tgt = NoObj THEN ErrName
-    ELSE IF tgt = DeadObj THEN ErrDeleted
+    ELSE IF IsDead(tgt) THEN ErrDeleted
     ELSE IF tgt[1] # "ce" THEN ErrType
     ELSE LET crec == CellRecOf(D, <<tgt[2], tgt[3]>>, tgt[4])
              vals == [i \in 1..Len(op[3]) |-> ArgVal(op[3][i], key)] IN
@@ -309,7 +312,7 @@ EvOp(D, ctx, key, op) ==
       [] op[1] = "none"  -> RetNoneMark
       [] op[1] = "read"  ->
             LET o == Resolve(D, ctx, op[2]) IN
-            IF o = NoObj THEN ErrName ELSE IF o = DeadObj THEN ErrDeleted
+            IF o = NoObj THEN ErrName ELSE IF IsDead(o) THEN ErrDeleted
             ELSE IF o[1] = "int" THEN o[2] ELSE ErrType
       [] op[1] = "call"  ->
             IF Skipped(op[3], key) THEN 0
